@@ -158,7 +158,8 @@ theorem C06_same_payload_same_reads (tb : Tables) (F : Bytes) (buffered : Bool) 
       (if buffered then bufioSize else scratchSize) (extent F))
     (hroot4 : DirOK F { off := 0, base := 0, order := h.order, typ := h.firstIfdType, idx := 0 } h.firstIfd cnt (4 * 1024 * 1024)
       (if buffered then bufioSize else scratchSize) (extent F))
-    (hrootW : ∀ x, IsEntry F { off := 0, base := 0, order := h.order, typ := h.firstIfdType, idx := 0 } h.firstIfd cnt x → W x) :
+    (hrootW : ∀ x, IsEntry F { off := 0, base := 0, order := h.order, typ := h.firstIfdType, idx := 0 } h.firstIfd cnt x ∨
+      IsStubEntry F { off := 0, base := 0, order := h.order, typ := h.firstIfdType, idx := 0 } h.firstIfd cnt x → W x) :
     (∀ r' e, decodeTiff tb F buffered h = .ok (r', e) → Coh F r' ∧ Exact tb { imageType := h.imageType } F r') ∧
     (∀ r' e, decodeJPEGIfd tb F buffered h = .ok (r', e) → Coh F r' ∧ Exact tb { imageType := h.imageType } F r') ∧
     (∀ r' e, decodeIfd tb (F.drop h.firstIfd) buffered h = .ok (r', e) → Coh F r' ∧ Exact tb { imageType := h.imageType } F r') :=
